@@ -620,6 +620,13 @@ func (tb *TB) Ite(c, a, b *Term) *Term {
 	if b.Op == OpIte && b.Args[1] == a {
 		return tb.Ite(tb.Or(c, b.Args[0]), a, b.Args[2])
 	}
+	// ite(c, ite(d, x, y), y) = ite(c∧d, x, y) ; ite(c, ite(d, y, x), y) = ite(c∧¬d, x, y)
+	if a.Op == OpIte && a.Args[2] == b {
+		return tb.Ite(tb.And(c, a.Args[0]), a.Args[1], b)
+	}
+	if a.Op == OpIte && a.Args[1] == b {
+		return tb.Ite(tb.And(c, tb.Not(a.Args[0])), a.Args[2], b)
+	}
 	if a == b {
 		return a
 	}
@@ -1521,4 +1528,26 @@ func (tb *TB) ClampUB(x *Term, b uint64) *Term {
 	}
 	c := tb.mk(&Term{Op: OpULE, S: BoolSort, Args: []*Term{x, bc}})
 	return tb.mk(&Term{Op: OpIte, S: x.S, Args: []*Term{c, x, bc}})
+}
+
+// exprSMTAbs prints FP arithmetic and conversions as uninterpreted functions.
+func exprSMTAbs(t *Term, ref func(*Term) string) string {
+	a := func(i int) string { return ref(t.Args[i]) }
+	w := t.S.W
+	switch t.Op {
+	case OpFAdd, OpFSub, OpFMul, OpFDiv:
+		name := map[Op]string{OpFAdd: "fadd", OpFSub: "fsub", OpFMul: "fmul", OpFDiv: "fdiv"}[t.Op]
+		return fmt.Sprintf("(uf_%s%d %s %s)", name, w, a(0), a(1))
+	case OpSToF:
+		return fmt.Sprintf("(uf_stof%d_%d %s)", w, t.Args[0].S.W, a(0))
+	case OpUToF:
+		return fmt.Sprintf("(uf_utof%d_%d %s)", w, t.Args[0].S.W, a(0))
+	case OpFToS:
+		return fmt.Sprintf("(uf_ftos%d_%d %s)", t.Args[0].S.W, w, a(0))
+	case OpFToU:
+		return fmt.Sprintf("(uf_ftou%d_%d %s)", t.Args[0].S.W, w, a(0))
+	case OpFToF:
+		return fmt.Sprintf("(uf_ftof%d %s)", w, a(0))
+	}
+	return exprSMT(t, ref)
 }
